@@ -324,9 +324,16 @@ CMP_SWAP = {"Eq": "Eq", "Ne": "Ne", "Lt": "Gt", "Gt": "Lt", "Le": "Ge", "Ge": "L
 def cmp_forms(g):
     """All equivalent readings (op, a, b, truth) of a comparison guard: negated operator with the other truth value,
     swapped operands with the mirrored operator."""
-    if g.kind != "bool" or g.term[0] != "cmp":
+    if g.kind == "value" and isinstance(g.value, int):
+        # `match x { 5 => .. }`: the arm's edge is taken exactly when x == 5
+        op, a, b, t = "Eq", g.term, ("c", g.value, None), True
+    elif g.kind == "notvalues" and isinstance(g.others, list) and len(g.others) == 1 and isinstance(g.others[0], int):
+        # the `_` arm of a match with one literal arm: x != that literal
+        op, a, b, t = "Eq", g.term, ("c", g.others[0], None), False
+    elif g.kind != "bool" or g.term[0] != "cmp":
         return []
-    op, a, b, t = g.term[1], g.term[2], g.term[3], bool(g.truth)
+    else:
+        op, a, b, t = g.term[1], g.term[2], g.term[3], bool(g.truth)
     return [(op, a, b, t), (CMP_NEG[op], a, b, not t), (CMP_SWAP[op], b, a, t), (CMP_SWAP[CMP_NEG[op]], b, a, not t)]
 
 
